@@ -18,7 +18,7 @@ Owners ==
   (IF "table" \in OwnerKinds THEN {[kind |-> "table", t |-> 1]} ELSE {})
   \cup (IF "column" \in OwnerKinds THEN {[kind |-> "column", t |-> 1, n |-> n] : n \in 0..Min2(T.ncols, 1)} ELSE {})
   \cup (IF "row" \in OwnerKinds THEN {[kind |-> "row", r |-> 1]} ELSE {})
-  \cup (IF "cell" \in OwnerKinds THEN {[kind |-> "cell", r |-> 1, c |-> 1]} ELSE {})
+  \cup (IF "cell" \in OwnerKinds THEN {[kind |-> "cell", r |-> 1, c |-> c] : c \in 1..Min2(2, Len(st.row[1].cells))} ELSE {})
   \cup (IF "cellvar" \in OwnerKinds THEN {[kind |-> "cellvar", v |-> v] : v \in DOMAIN st.cv} ELSE {})
   \cup (IF "handle" \in OwnerKinds THEN {[kind |-> "handle", h |-> h] : h \in DOMAIN st.hd} ELSE {})
 
@@ -28,6 +28,9 @@ Ops ==
         THEN {[op |-> "copycell", from |-> f] :
                 f \in {[kind |-> "cell", r |-> 1, c |-> 1]} \cup {[kind |-> "cellvar", v |-> v] : v \in DOMAIN st.cv}}
         ELSE {})
+  \* a by-value copy of the cell added to the row itself: one more independent owner
+  \cup (IF Len(st.row[1].cells) < 2 /\ MaxCopies > 0
+        THEN {[op |-> "rowaddcell", r |-> 1, from |-> [kind |-> "cell", r |-> 1, c |-> 1]]} ELSE {})
   \cup (IF Len(st.hd) < 1 THEN {[op |-> "takecol", t |-> 1, n |-> n] : n \in 0..1} ELSE {})
   \cup (IF T.ncols < 12 THEN {[op |-> "rowitems", t |-> 1, items |-> [i \in 1..12 |-> It("w")]]} ELSE {})
 
@@ -51,7 +54,7 @@ SameOwner(o, kind, a, b) ==
   \/ o.kind = "handle" /\ kind = "handle" /\ st.hd[a] = st.hd[o.h]
   \/ o.kind = "column" /\ kind = "handle" /\ st.hd[a].t = o.t /\ st.hd[a].n = o.n
 AllOwnerTriples(s) ==
-  {<<"table", 1, 0>>, <<"row", 1, 0>>, <<"cell", 1, 1>>}
+  {<<"table", 1, 0>>, <<"row", 1, 0>>} \cup {<<"cell", 1, c>> : c \in 1..Min2(2, Len(s.row[1].cells))}
   \cup {<<"column", 1, n>> : n \in 0..s.tbl[1].ncols}
   \cup {<<"cellvar", v, 0>> : v \in DOMAIN s.cv} \cup {<<"handle", h, 0>> : h \in DOMAIN s.hd}
 Independence ==
